@@ -12,6 +12,20 @@ for _i in (3, 4, 5, 6, 8, 9, 10, 11, 12, 13, 14, 15, 16, 17, 19, 20):
     NOT_APPLICABLE.setdefault(f"C{_i:02d}", _NOT_BUILT)
 
 CHECKS = {
+    "C20": {
+        "text": ("Deductive: codemodder.run is executed symbolically on every path with each callee replaced by its contract; the returned "
+                 "status / SystemExit code is proved equal to the documented status of the first applicable condition (missing directory => 1, "
+                 "duplicate-tool or missing SARIF => 1, MisconfiguredAIClient => 3, report not writable => 2, otherwise 0), 'non-zero never "
+                 "for a run whose report was written' (ghost report_written set by CodeTF.write_report, itself verified: 0 iff the whole "
+                 "serialised report reached the file, 2 on any failure), main exits with run's value, ArgumentParser.error always exits 3, both "
+                 "AI-client set-ups raise MisconfiguredAIClient exactly for an inconsistent key/endpoint pair, the context constructor passes "
+                 "the options through unchanged."),
+        "note": ("Trusted: argparse (parse_args returns or exits 0/3), os.path.exists / os.getenv as functions of their argument, sys.exit, "
+                 "the client-library constructors, file I/O model (no partial writes: open('w') fails before touching the file or not at all), "
+                 "contracts of run's callees that belong to other properties (apply_codemods, compile_results, match_codemods: verified there "
+                 "where claimed). Uncaught exceptions (Python exits 1) are outside the property."),
+        "design_ref": "DESIGN.md section 4 C20",
+    },
     "C13": {
         "text": ("Deductive, unbounded: file_line_patterns (which path:line patterns apply to a file), BaseCodemod._process_file (the line "
                  "lists handed to the file context: relative spelling must apply, nothing but matching patterns may), match_line, "
